@@ -237,7 +237,7 @@ def join_aux(source_name, source_key, source_delete,  # noqa: C901
             for row_number, row in enumerate(resource, start=1):
                 key = target_key(row, row_number)
                 try:
-                    extra = create_extra_by_key(key)
+                    extra = create_extra_by_key(key, with_key_fields=False)
                     db_keys_usage.set(key, True)
                 except KeyError:
                     if mode == 'inner':
@@ -255,7 +255,7 @@ def join_aux(source_name, source_key, source_delete,  # noqa: C901
                         yield extra
 
     # Creates extra by key
-    def create_extra_by_key(key):
+    def create_extra_by_key(key, with_key_fields=True):
         extra = db.get(key)
         key = extra.pop('__key__', None)
         extra = dict(
@@ -263,7 +263,7 @@ def join_aux(source_name, source_key, source_delete,  # noqa: C901
             for k, v in extra.items()
             if k in fields
         )
-        if key:
+        if key and with_key_fields:
             for k, v in zip(target_key.key_list, key):
                 extra[k] = v
         return extra
